@@ -198,8 +198,9 @@ func (s *scanner) Next() (*hrpc.Result, error) {
 
 	for {
 		partial, err = s.peek()
-		if err == io.EOF && result != nil {
-			// no more results, return what we have. Next call to the Next() will get EOF
+		if err == io.EOF && result != nil && len(result.Cell) > 0 {
+			// no more results, return what we have. Next call to the Next() will get EOF.
+			// Fragments without any cell do not make a row.
 			result.Partial = proto.Bool(false)
 			return toLocalResult(result), nil
 		}
